@@ -2,18 +2,41 @@
 
 package engine
 
+// C09 - aggregates served from stored statistics equal aggregates over the rows.
+//
+// (A) every aggregate statement is executed through the real statement path of a single-process server:
+//     yacc parser -> query.Prepare / Compile -> executor.Select (template or heuristic planner, aggregate
+//     push-down rules) -> pipeline executor -> IndexScanTransform -> shard.CreateLogicalPlan /
+//     shard.CreateCursor -> ChunkReader (+ pre-aggregation shortcut) -> aggregate transforms -> HTTP row sender.
+//     Only the cluster catalogue is replaced: a one-node / one-partition / one-shard shard mapper (c09Mapper,
+//     c09Group: a copy of the ts-store branch of coordinator.ClusterShardMapping.CreateLogicalPlan) and a storage
+//     facade (c09Store) that hands out the shard under test.
+// (B) the same function applied by the harness to the rows the plain cursor (vShard.Dump) returns for the same
+//     time range, filtered by the harness for the field-filter variant.
+// Layouts: all histories over the C09 alphabet up to the depth bound (c02-style explorer, no-op pruning).
+
 import (
 	"context"
 	"fmt"
+	"math"
+	"os"
+	"runtime/debug"
+	"sort"
+	"strconv"
 	"strings"
 	"testing"
 	"time"
 
 	"github.com/openGemini/openGemini/engine/executor"
 	"github.com/openGemini/openGemini/engine/hybridqp"
+	"github.com/openGemini/openGemini/engine/immutable"
+	"github.com/openGemini/openGemini/lib/fileops"
+	"github.com/openGemini/openGemini/lib/logger"
 	"github.com/openGemini/openGemini/lib/statisticsPusher/statistics"
+	"github.com/openGemini/openGemini/lib/util"
 	"github.com/openGemini/openGemini/lib/util/lifted/influx/influxql"
 	"github.com/openGemini/openGemini/lib/util/lifted/influx/query"
+	"github.com/openGemini/openGemini/lib/util/lifted/vm/protoparser/influx"
 	kit "github.com/openGemini/openGemini/lib/verifkit"
 )
 
@@ -36,8 +59,10 @@ func (s *c09Store) GetIndexInfo(db string, ptId uint32, shardID uint64, schema h
 func (s *c09Store) RowCount(db string, ptId uint32, shardIDS []uint64, schema hybridqp.Catalog) (int64, error) {
 	return 0, nil
 }
-func (s *c09Store) UnrefEngineDbPt(db string, ptId uint32)                              {}
+func (s *c09Store) UnrefEngineDbPt(db string, ptId uint32)                             {}
 func (s *c09Store) GetShardDownSampleLevel(db string, ptId uint32, shardID uint64) int { return 0 }
+
+var c09TheStore = &c09Store{}
 
 // c09Mapper / c09Group stand in for the coordinator's ClusterShardMapper: one node, one partition, one shard.
 type c09Mapper struct{ v *vShard }
@@ -78,7 +103,7 @@ func (g *c09Group) LogicalPlanCost(source *influxql.Measurement, opt query.Proce
 	return hybridqp.LogicalPlanCost{}, nil
 }
 func (g *c09Group) GetSources(sources influxql.Sources) influxql.Sources { return sources }
-func (g *c09Group) GetSeriesKey() []byte                                   { return nil }
+func (g *c09Group) GetSeriesKey() []byte                                 { return nil }
 func (g *c09Group) GetTagKeys(stmt *influxql.ShowTagValuesStatement) (map[string]map[string]struct{}, error) {
 	return nil, nil
 }
@@ -86,7 +111,7 @@ func (g *c09Group) GetTagVals(nodeID uint64, stmt *influxql.ShowTagValuesStateme
 	return nil, nil
 }
 func (g *c09Group) QueryNodePtsMap(database string) (map[uint64][]uint32, error) { return nil, nil }
-func (g *c09Group) CheckDatabaseExists(name string) error                          { return nil }
+func (g *c09Group) CheckDatabaseExists(name string) error                        { return nil }
 
 // GetETraits: one remote query for (node 1, pt defaultPtId, the shard) - coordinator.makeRemoteQuery.
 func (g *c09Group) GetETraits(ctx context.Context, sources influxql.Sources, schema hybridqp.Catalog) ([]hybridqp.Trait, error) {
@@ -129,6 +154,7 @@ func (g *c09Group) CreateLogicalPlan(ctx context.Context, sources influxql.Sourc
 	return builder.CreateNodePlan(plan, eTraits)
 }
 
+// c09Parse: the parser entry of the HTTP handler (lib/util/lifted/influx/httpd/handler.go getSqlQuery).
 func c09Parse(q string) (*influxql.SelectStatement, error) {
 	p := influxql.NewParser(strings.NewReader(q))
 	defer p.Release()
@@ -148,8 +174,19 @@ func c09Parse(q string) (*influxql.SelectStatement, error) {
 	return s, nil
 }
 
-// c09Select runs one statement the way the coordinator of a single-process server does (executeSelectStatement).
+type c09Series struct {
+	Host    string
+	Columns []string
+	Values  [][]interface{}
+}
+
+// c09Select runs one statement the way StatementExecutor.executeSelectStatement does on a single-process server.
 func c09Select(v *vShard, q string) (rows []*c09Series, err error) {
+	defer func() {
+		if r := recover(); r != nil {
+			err = fmt.Errorf("panic: %v", r)
+		}
+	}()
 	stmt, err := c09Parse(q)
 	if err != nil {
 		return nil, err
@@ -173,7 +210,7 @@ func c09Select(v *vShard, q string) (rows []*c09Series, err error) {
 	}()
 	for r := range rc {
 		for _, row := range r.Rows {
-			s := &c09Series{Name: row.Name, Tags: row.Tags, Columns: row.Columns}
+			s := &c09Series{Host: row.Tags["host"], Columns: append([]string(nil), row.Columns...)}
 			for _, vals := range row.Values {
 				s.Values = append(s.Values, append([]interface{}(nil), vals...))
 			}
@@ -186,51 +223,1032 @@ func c09Select(v *vShard, q string) (rows []*c09Series, err error) {
 	return rows, nil
 }
 
-type c09Series struct {
-	Name    string
-	Tags    map[string]string
-	Columns []string
-	Values  [][]interface{}
+// ---- alphabet --------------------------------------------------------------------------------------
+
+// Values of the C09 batches: distinct per row, mixed signs, not monotone in time (so that first != min,
+// last != max, and a 0-initialised min/max is visible); all exactly representable (sums are order-free).
+var c09PF = map[int]float64{1: 3, 2: -1, 3: 4, 4: -2}
+var c09PI = map[int]int64{1: -2, 2: 4, 3: -1, 4: 3}
+
+func c09F(id, host, j int) vVal {
+	return vVal{Typ: influx.Field_Type_Float, F: c09PF[j]*float64(100*id+50*host+j) + 0.5}
+}
+func c09I(id, host, j int) vVal {
+	return vVal{Typ: influx.Field_Type_Int, I: c09PI[j] * int64(100*id+50*host+j)}
+}
+func c09S(id, host, j int) vVal {
+	return vVal{Typ: influx.Field_Type_String, S: fmt.Sprintf("w%d.%d.%d", id, host, (j*7)%5)}
 }
 
-func (s *c09Series) String() string {
-	return fmt.Sprintf("%s%v %v %v", s.Name, s.Tags, s.Columns, s.Values)
+func c09Pt(id int, host string, j int, fields string) vPoint {
+	h := 0
+	if host == "b" {
+		h = 1
+	}
+	p := vPoint{K: vKey{"m", host, vT(j)}, V: map[string]vVal{}}
+	for _, c := range fields {
+		switch c {
+		case 'f':
+			p.V["f"] = c09F(id, h, j)
+		case 'i':
+			p.V["i"] = c09I(id, h, j)
+		case 's':
+			p.V["s"] = c09S(id, h, j)
+		}
+	}
+	return p
+}
+
+var c09WriteMenu = []struct {
+	Name string
+	Gen  func(id int) []vPoint
+}{
+	{"W4", func(id int) []vPoint { // both series, t1..t4: two 2-row segments per series once flushed
+		return []vPoint{
+			c09Pt(id, "a", 1, "fi"), c09Pt(id, "a", 2, "fi"), c09Pt(id, "a", 3, "fi"), c09Pt(id, "a", 4, "fi"),
+			c09Pt(id, "b", 1, "fs"), c09Pt(id, "b", 2, "fs"), c09Pt(id, "b", 3, "fs"), c09Pt(id, "b", 4, "fs"),
+		}
+	}},
+	{"WN", func(id int) []vPoint { // null-heavy columns
+		return []vPoint{
+			c09Pt(id, "a", 1, "f"), c09Pt(id, "a", 2, "i"), c09Pt(id, "a", 3, "s"), c09Pt(id, "a", 4, "fis"),
+			c09Pt(id, "b", 1, "s"), c09Pt(id, "b", 4, "f"),
+		}
+	}},
+	{"WL", func(id int) []vPoint { // left half
+		return []vPoint{c09Pt(id, "a", 1, "fi"), c09Pt(id, "a", 2, "fi"), c09Pt(id, "b", 1, "f")}
+	}},
+	{"WR", func(id int) []vPoint { // right half (disjoint from WL: ordered / out-of-order files without duplicate keys)
+		return []vPoint{c09Pt(id, "a", 3, "fi"), c09Pt(id, "a", 4, "fi"), c09Pt(id, "b", 4, "f")}
+	}},
+	{"WB", func(id int) []vPoint { // middle of series b only (disjoint from WN, WL, WR: b's rows interleave across files)
+		return []vPoint{c09Pt(id, "b", 2, "fs"), c09Pt(id, "b", 3, "fs")}
+	}},
+	{"WO", func(id int) []vPoint { // odd timestamps
+		return []vPoint{c09Pt(id, "a", 1, "fi"), c09Pt(id, "a", 3, "fi"), c09Pt(id, "b", 1, "fs"), c09Pt(id, "b", 3, "fs")}
+	}},
+	{"WE", func(id int) []vPoint { // even timestamps (disjoint from WO: files interleaved in time without duplicate keys)
+		return []vPoint{c09Pt(id, "a", 2, "fi"), c09Pt(id, "a", 4, "fi"), c09Pt(id, "b", 2, "fs"), c09Pt(id, "b", 4, "fs")}
+	}},
+}
+
+func c09WriteIndex(name string) int {
+	for i := range c09WriteMenu {
+		if c09WriteMenu[i].Name == name {
+			return i
+		}
+	}
+	return -1
+}
+
+// c09Base splits a macro op "<write>F" (write the batch, then flush) into the write name and the flush flag.
+func c09Base(op string) (string, bool) {
+	if len(op) > 2 && strings.HasSuffix(op, "F") {
+		b := op[:len(op)-1]
+		if c09WriteIndex(b) >= 0 || vWriteIndex(b) >= 0 {
+			return b, true
+		}
+	}
+	return op, false
+}
+
+func c09Batch(op string, id int) []vPoint {
+	op, _ = c09Base(op)
+	if wi := c09WriteIndex(op); wi >= 0 {
+		return c09WriteMenu[wi].Gen(id)
+	}
+	if wi := vWriteIndex(op); wi >= 0 {
+		return vWriteMenu[wi].Gen(id)
+	}
+	return nil
+}
+
+// c09Ops: the alphabet. Writes come plain (into the memtable) and as macro ops "<write>F" = write + flush, so that a
+// history of length 3 reaches two files + reorganisation, file + out-of-order file + merge, two files + memtable;
+// a bare flush is then redundant ("X Y F" = "X YF"). RO = clean close + reopen (flushes the memtable, reloads files).
+func c09Ops(big bool) []string {
+	if !big {
+		return []string{"WR", "WE", "WB", "W4F", "WNF", "WLF", "WRF", "WOF", "WEF", "WBF", "LC", "FC", "MO", "RO"}
+	}
+	return []string{"W4", "WN", "WL", "WR", "WO", "WE", "WB", "Wc", "We", "Wh", "W4F", "WNF", "WLF", "WRF", "WOF", "WEF", "WBF", "WcF",
+		"LC", "FC", "MO", "MF", "RO"}
+}
+
+// c09Apply executes one op on the shard and on the model (writes of the C09 menu here, everything else by vApply).
+func c09Apply(v *vShard, m vModel, op string, id int) error {
+	base, flush := c09Base(op)
+	if pts := c09Batch(base, id); pts != nil {
+		if err := v.Write(pts); err != nil {
+			return err
+		}
+		m.ApplyBatch(pts)
+		if flush {
+			v.Flush()
+		}
+		return nil
+	}
+	return vApply(v, m, op, id)
+}
+
+// ---- physical layout: segments ---------------------------------------------------------------------
+
+type c09Seg struct {
+	File     string
+	Order    bool
+	Sid      uint64
+	Min, Max int64
+}
+
+// c09Segments lists every stored segment (per series chunk) of measurement mst with its time range.
+func c09Segments(v *vShard, mst string) ([]c09Seg, error) {
+	order, unorder, _ := v.sh.immTables.GetBothFilesRef(mst, false, util.TimeRange{Min: math.MinInt64, Max: math.MaxInt64}, nil)
+	defer immutable.UnrefFiles(order...)
+	defer immutable.UnrefFiles(unorder...)
+	var out []c09Seg
+	for pass, files := range [][]immutable.TSSPFile{order, unorder} {
+		for _, f := range files {
+			n := int(f.MetaIndexItemNum())
+			for i := 0; i < n; i++ {
+				mi, err := f.MetaIndexAt(i)
+				if err != nil {
+					return nil, err
+				}
+				cms, err := f.ReadChunkMetaData(i, mi, nil, fileops.IO_PRIORITY_LOW_READ)
+				if err != nil {
+					return nil, err
+				}
+				for ci := range cms {
+					cm := &cms[ci]
+					for s := 0; s < cm.SegmentCount(); s++ {
+						r := cm.GetTimeRangeBy(s)
+						out = append(out, c09Seg{File: f.Path(), Order: pass == 0, Sid: cm.GetSid(), Min: r[0], Max: r[1]})
+					}
+				}
+			}
+		}
+	}
+	return out, nil
+}
+
+func c09TIdx(t int64) string {
+	switch {
+	case t <= influxql.MinTime:
+		return "-inf"
+	case t >= influxql.MaxTime:
+		return "+inf"
+	}
+	return strconv.Itoa(int((t - vBase) / int64(time.Second)))
+}
+
+// c09SegShape: per file the segment spans of each series chunk, e.g. "o{[1-2][3-4]|[1-2]}u{[1-1]}".
+func c09SegShape(segs []c09Seg) string {
+	var b strings.Builder
+	lastFile, lastSid := "", uint64(0)
+	for _, s := range segs {
+		if s.File != lastFile {
+			if lastFile != "" {
+				b.WriteString("}")
+			}
+			if s.Order {
+				b.WriteString("o{")
+			} else {
+				b.WriteString("u{")
+			}
+			lastFile, lastSid = s.File, s.Sid
+		} else if s.Sid != lastSid {
+			b.WriteString("|")
+			lastSid = s.Sid
+		}
+		fmt.Fprintf(&b, "[%s-%s]", c09TIdx(s.Min), c09TIdx(s.Max))
+	}
+	if lastFile != "" {
+		b.WriteString("}")
+	}
+	return b.String()
+}
+
+// c09Coverage classifies every segment against [start,end]: F fully covered, P partially, N disjoint.
+func c09Coverage(segs []c09Seg, start, end int64) (pattern string, full, partial int) {
+	var b strings.Builder
+	for _, s := range segs {
+		switch {
+		case s.Max < start || s.Min > end:
+			b.WriteByte('N')
+		case start <= s.Min && s.Max <= end:
+			b.WriteByte('F')
+			full++
+		default:
+			b.WriteByte('P')
+			partial++
+		}
+	}
+	return b.String(), full, partial
+}
+
+// ---- queries ---------------------------------------------------------------------------------------
+
+type c09Variant struct {
+	Name   string
+	Hint   bool
+	Filter bool // where f > 0
+	ByHost bool
+	Bucket int // seconds; 0 = none
+	Desc   bool
+	Multi  bool // all calls of a field in one statement
+}
+
+func (va c09Variant) lenient() bool { return !va.Hint && !va.Filter && va.Bucket == 0 }
+
+type c09Range struct{ A, B int } // vT(A)..vT(B); A < 0 = unbounded
+
+func (r c09Range) bounds() (int64, int64) {
+	if r.A < 0 {
+		return influxql.MinTime, influxql.MaxTime
+	}
+	return vT(r.A), vT(r.B)
+}
+
+func (r c09Range) String() string {
+	if r.A < 0 {
+		return "all"
+	}
+	return fmt.Sprintf("[t%d,t%d]", r.A, r.B)
+}
+
+type c09AggField struct {
+	Agg   string
+	Field string
+}
+
+var c09AggFields = func() []c09AggField {
+	var out []c09AggField
+	for _, f := range []string{"f", "i"} {
+		for _, a := range []string{"count", "sum", "mean", "min", "max", "first", "last"} {
+			out = append(out, c09AggField{a, f})
+		}
+	}
+	for _, a := range []string{"count", "first", "last"} {
+		out = append(out, c09AggField{a, "s"})
+	}
+	return out
+}()
+
+// Query-set levels: 0 = light (layouts without any file: nothing stored, no statistics), 1 = reduced, 2 = full.
+func c09Variants(level int) []c09Variant {
+	if level == 0 {
+		return []c09Variant{{Name: "plain"}, {Name: "hint", Hint: true}, {Name: "byhost", ByHost: true}, {Name: "bucket2s", Bucket: 2}}
+	}
+	full := level >= 2
+	vs := []c09Variant{
+		{Name: "plain"},
+		{Name: "plain_desc", Desc: true},
+		{Name: "hint", Hint: true},
+		{Name: "filter", Filter: true},
+		{Name: "byhost", ByHost: true},
+		{Name: "bucket2s", Bucket: 2},
+		{Name: "multi", Multi: true},
+	}
+	if full {
+		vs = append(vs,
+			c09Variant{Name: "hint_desc", Hint: true, Desc: true},
+			c09Variant{Name: "filter_desc", Filter: true, Desc: true},
+			c09Variant{Name: "byhost_desc", ByHost: true, Desc: true},
+			c09Variant{Name: "bucket2s_desc", Bucket: 2, Desc: true},
+			c09Variant{Name: "bucket1s", Bucket: 1},
+			c09Variant{Name: "bucket3s", Bucket: 3},
+			c09Variant{Name: "hint_byhost", Hint: true, ByHost: true},
+			c09Variant{Name: "filter_byhost", Filter: true, ByHost: true},
+			c09Variant{Name: "bucket2s_byhost", Bucket: 2, ByHost: true},
+			c09Variant{Name: "hint_filter_bucket2s", Hint: true, Filter: true, Bucket: 2},
+			c09Variant{Name: "multi_hint", Multi: true, Hint: true},
+			c09Variant{Name: "multi_desc", Multi: true, Desc: true},
+		)
+	}
+	return vs
+}
+
+func c09Ranges(level int) []c09Range {
+	if level == 0 {
+		return []c09Range{{-1, -1}, {1, 4}, {2, 3}}
+	}
+	full := level >= 2
+	rs := []c09Range{{-1, -1}}
+	lo, hi := 1, 4
+	if full {
+		lo, hi = 0, 5
+	}
+	for a := lo; a <= hi; a++ {
+		for b := a; b <= hi; b++ {
+			rs = append(rs, c09Range{a, b})
+		}
+	}
+	return rs
+}
+
+func c09QueryText(va c09Variant, r c09Range, calls []c09AggField) string {
+	var b strings.Builder
+	b.WriteString("select ")
+	if va.Hint {
+		b.WriteString("/*+ exact_statistic_query */ ")
+	}
+	for i, c := range calls {
+		if i > 0 {
+			b.WriteString(", ")
+		}
+		fmt.Fprintf(&b, "%s(%s)", c.Agg, c.Field)
+	}
+	if calls == nil {
+		b.WriteString("f, i, s")
+	}
+	b.WriteString(" from m")
+	var conds []string
+	if r.A >= 0 {
+		conds = append(conds, fmt.Sprintf("time >= %d and time <= %d", vT(r.A), vT(r.B)))
+	}
+	if va.Filter {
+		conds = append(conds, "f > 0")
+	}
+	if len(conds) > 0 {
+		b.WriteString(" where " + strings.Join(conds, " and "))
+	}
+	var dims []string
+	if va.ByHost {
+		dims = append(dims, "host")
+	}
+	if va.Bucket > 0 {
+		dims = append(dims, fmt.Sprintf("time(%ds)", va.Bucket))
+	}
+	if len(dims) > 0 {
+		b.WriteString(" group by " + strings.Join(dims, ", "))
+	}
+	if va.Desc {
+		b.WriteString(" order by time desc")
+	}
+	return b.String()
+}
+
+// ---- reference: the function applied to the rows -------------------------------------------------
+
+type c09Row struct {
+	Host string
+	T    int64
+	V    map[string]vVal
+}
+
+// c09Rows: the rows of the plain cursor for the range (all three fields selected), sorted by (time, host).
+func c09Rows(v *vShard, r c09Range) ([]c09Row, error) {
+	start, end := r.bounds()
+	got, shapeErrs, err := v.Dump(vQuery{Mst: "m", Fields: vFields, Ascending: true, Start: start, End: end})
+	if err != nil {
+		return nil, err
+	}
+	if len(shapeErrs) > 0 {
+		return nil, fmt.Errorf("plain cursor stream shape: %s", strings.Join(shapeErrs, "; "))
+	}
+	rows := make([]c09Row, 0, len(got))
+	for k, fs := range got {
+		rows = append(rows, c09Row{Host: k.Host, T: k.T, V: fs})
+	}
+	sort.Slice(rows, func(i, j int) bool {
+		if rows[i].T != rows[j].T {
+			return rows[i].T < rows[j].T
+		}
+		return rows[i].Host < rows[j].Host
+	})
+	return rows, nil
+}
+
+// c09StmtRows: the rows the corresponding plain statement returns (select f, i, s ... group by host) for the same
+// time range and, if asked, the same field filter. Used as the reference rows of the field-filter variants (how a
+// filter treats rows whose fields live in different files / the memtable is the plain select's business - C02/C08 -
+// not this property's: the statement compares the aggregate with the plain select *for the same filter*), and as a
+// cross-check of the cursor-level dump otherwise.
+func c09StmtRows(v *vShard, r c09Range, filter bool) ([]c09Row, error) {
+	q := c09QueryText(c09Variant{Filter: filter, ByHost: true}, r, nil)
+	series, err := c09Select(v, q)
+	if err != nil {
+		return nil, fmt.Errorf("%s: %v", q, err)
+	}
+	var rows []c09Row
+	for _, s := range series {
+		if len(s.Columns) != 4 || s.Columns[1] != "f" || s.Columns[2] != "i" || s.Columns[3] != "s" {
+			return nil, fmt.Errorf("%s: unexpected columns %v", q, s.Columns)
+		}
+		for _, vals := range s.Values {
+			tm, ok := vals[0].(time.Time)
+			if !ok {
+				return nil, fmt.Errorf("%s: time column has type %T", q, vals[0])
+			}
+			row := c09Row{Host: s.Host, T: tm.UnixNano(), V: map[string]vVal{}}
+			for ci, name := range []string{"f", "i", "s"} {
+				if vals[ci+1] == nil {
+					continue
+				}
+				val, ok := c09ValOf(vals[ci+1])
+				if !ok {
+					return nil, fmt.Errorf("%s: value type %T", q, vals[ci+1])
+				}
+				row.V[name] = val
+			}
+			if len(row.V) > 0 {
+				rows = append(rows, row)
+			}
+		}
+	}
+	sort.Slice(rows, func(i, j int) bool {
+		if rows[i].T != rows[j].T {
+			return rows[i].T < rows[j].T
+		}
+		return rows[i].Host < rows[j].Host
+	})
+	return rows, nil
+}
+
+// c09HarnessFilter: f > 0 applied to the merged rows (last write wins first, filter second).
+func c09HarnessFilter(rows []c09Row) []c09Row {
+	var out []c09Row
+	for _, r := range rows {
+		if f, ok := r.V["f"]; ok && f.F > 0 {
+			out = append(out, r)
+		}
+	}
+	return out
+}
+
+func c09SameRows(a, b []c09Row) bool {
+	return c09FmtRows(a) == c09FmtRows(b)
+}
+
+// c09Window: start of the time bucket of t (InfluxQL: buckets aligned to the epoch).
+func c09Window(t int64, bucketS int) int64 {
+	w := int64(bucketS) * int64(time.Second)
+	s := t - t%w
+	if t%w < 0 {
+		s -= w
+	}
+	return s
+}
+
+type c09GroupKey struct {
+	Host   string
+	Bucket int64
+}
+
+func (g c09GroupKey) String() string {
+	s := "host=" + g.Host
+	if g.Host == "" {
+		s = "all"
+	}
+	if g.Bucket != 0 {
+		s += fmt.Sprintf("@bucket(%d)", (g.Bucket-vBase)/int64(time.Second))
+	}
+	return s
+}
+
+// c09Expected applies agg to the non-null values of field within every group. A result is a set of admissible
+// values (more than one only for first/last when several series tie on the extreme timestamp).
+func c09Expected(rows []c09Row, va c09Variant, c c09AggField) map[c09GroupKey][]vVal {
+	type acc struct {
+		n      int64
+		sumF   float64
+		sumI   int64
+		min    vVal
+		max    vVal
+		firstT int64
+		lastT  int64
+		first  []vVal
+		last   []vVal
+		typ    int32
+	}
+	groups := map[c09GroupKey]*acc{}
+	for _, r := range rows {
+		val, ok := r.V[c.Field]
+		if !ok {
+			continue
+		}
+		k := c09GroupKey{}
+		if va.ByHost {
+			k.Host = r.Host
+		}
+		if va.Bucket > 0 {
+			k.Bucket = c09Window(r.T, va.Bucket)
+		}
+		a := groups[k]
+		if a == nil {
+			a = &acc{min: val, max: val, firstT: r.T, lastT: r.T, typ: val.Typ}
+			groups[k] = a
+			a.n, a.sumF, a.sumI = 1, val.F, val.I
+			a.first, a.last = []vVal{val}, []vVal{val}
+			continue
+		}
+		a.n++
+		a.sumF += val.F
+		a.sumI += val.I
+		if c09Less(val, a.min) {
+			a.min = val
+		}
+		if c09Less(a.max, val) {
+			a.max = val
+		}
+		switch {
+		case r.T < a.firstT:
+			a.firstT, a.first = r.T, []vVal{val}
+		case r.T == a.firstT:
+			a.first = append(a.first, val)
+		}
+		switch {
+		case r.T > a.lastT:
+			a.lastT, a.last = r.T, []vVal{val}
+		case r.T == a.lastT:
+			a.last = append(a.last, val)
+		}
+	}
+	out := map[c09GroupKey][]vVal{}
+	for k, a := range groups {
+		switch c.Agg {
+		case "count":
+			out[k] = []vVal{{Typ: influx.Field_Type_Int, I: a.n}}
+		case "sum":
+			if a.typ == influx.Field_Type_Float {
+				out[k] = []vVal{{Typ: influx.Field_Type_Float, F: a.sumF}}
+			} else {
+				out[k] = []vVal{{Typ: influx.Field_Type_Int, I: a.sumI}}
+			}
+		case "mean":
+			if a.typ == influx.Field_Type_Float {
+				out[k] = []vVal{{Typ: influx.Field_Type_Float, F: a.sumF / float64(a.n)}}
+			} else {
+				out[k] = []vVal{{Typ: influx.Field_Type_Float, F: float64(a.sumI) / float64(a.n)}}
+			}
+		case "min":
+			out[k] = []vVal{a.min}
+		case "max":
+			out[k] = []vVal{a.max}
+		case "first":
+			out[k] = a.first
+		case "last":
+			out[k] = a.last
+		}
+	}
+	return out
+}
+
+func c09Less(a, b vVal) bool {
+	switch a.Typ {
+	case influx.Field_Type_Float:
+		return a.F < b.F
+	case influx.Field_Type_Int:
+		return a.I < b.I
+	}
+	return a.S < b.S
+}
+
+func c09ValOf(x interface{}) (vVal, bool) {
+	switch t := x.(type) {
+	case int64:
+		return vVal{Typ: influx.Field_Type_Int, I: t}, true
+	case int:
+		return vVal{Typ: influx.Field_Type_Int, I: int64(t)}, true
+	case uint64:
+		return vVal{Typ: influx.Field_Type_Int, I: int64(t)}, true
+	case float64:
+		return vVal{Typ: influx.Field_Type_Float, F: t}, true
+	case string:
+		return vVal{Typ: influx.Field_Type_String, S: t}, true
+	}
+	return vVal{}, false
+}
+
+func c09SameVal(a, b vVal) bool {
+	if a.Typ != b.Typ {
+		return false
+	}
+	switch a.Typ {
+	case influx.Field_Type_Float:
+		if a.F == b.F {
+			return true
+		}
+		d := math.Abs(a.F - b.F)
+		return d <= 1e-12*math.Max(math.Abs(a.F), math.Abs(b.F))
+	case influx.Field_Type_Int:
+		return a.I == b.I
+	}
+	return a.S == b.S
+}
+
+// c09Observed turns the statement's answer into group -> value for column col (1-based after time).
+// Null values and zero counts stand for "no rows in the group" (fill(null) / count's fill(0) on empty buckets).
+func c09Observed(series []*c09Series, va c09Variant, col int, isCount bool) (map[c09GroupKey]vVal, []string) {
+	out := map[c09GroupKey]vVal{}
+	var errs []string
+	for _, s := range series {
+		if va.Bucket == 0 && len(s.Values) > 1 {
+			errs = append(errs, fmt.Sprintf("%d result rows for one group (host=%q)", len(s.Values), s.Host))
+		}
+		for _, row := range s.Values {
+			if col >= len(row) {
+				errs = append(errs, fmt.Sprintf("result row has %d columns", len(row)))
+				continue
+			}
+			if row[col] == nil {
+				continue
+			}
+			val, ok := c09ValOf(row[col])
+			if !ok {
+				errs = append(errs, fmt.Sprintf("unexpected value type %T", row[col]))
+				continue
+			}
+			if isCount && val.I == 0 {
+				continue
+			}
+			k := c09GroupKey{}
+			if va.ByHost {
+				k.Host = s.Host
+			}
+			if va.Bucket > 0 {
+				tm, ok := row[0].(time.Time)
+				if !ok {
+					errs = append(errs, fmt.Sprintf("time column has type %T", row[0]))
+					continue
+				}
+				k.Bucket = tm.UnixNano()
+			}
+			if old, dup := out[k]; dup {
+				errs = append(errs, fmt.Sprintf("group %v returned twice (%v and %v)", k, old, val))
+			}
+			out[k] = val
+		}
+	}
+	return out, errs
+}
+
+func c09Diff(exp map[c09GroupKey][]vVal, got map[c09GroupKey]vVal) []string {
+	var diffs []string
+	for k, cands := range exp {
+		g, ok := got[k]
+		if !ok {
+			diffs = append(diffs, fmt.Sprintf("%v: no value, rows give %v", k, cands))
+			continue
+		}
+		hit := false
+		for _, c := range cands {
+			if c09SameVal(c, g) {
+				hit = true
+			}
+		}
+		if !hit {
+			diffs = append(diffs, fmt.Sprintf("%v: statement %v, rows give %v", k, g, cands))
+		}
+	}
+	for k, g := range got {
+		if _, ok := exp[k]; !ok {
+			diffs = append(diffs, fmt.Sprintf("%v: statement %v, rows give nothing", k, g))
+		}
+	}
+	sort.Strings(diffs)
+	return diffs
+}
+
+// ---- per-state oracle ------------------------------------------------------------------------------
+
+type c09Case struct {
+	Ops   []string `json:"ops"`
+	Query string   `json:"query,omitempty"`
+}
+
+type c09State struct {
+	hist     []string
+	crossGen bool
+	layout   string
+	level    int // query-set level
+}
+
+// c09Kind names the violation by what differs: the aggregate, and whether the shortcut was eligible.
+func c09Kind(va c09Variant, c c09AggField) string {
+	path := "rows_path"
+	if va.lenient() {
+		path = "preagg_path"
+	}
+	return fmt.Sprintf("%s_%s_mismatch", c.Agg, path)
+}
+
+func c09CheckState(rep *kit.Report, v *vShard, st c09State) (failed bool) {
+	key := strings.Join(st.hist, " ")
+	segs, err := c09Segments(v, "m")
+	if err != nil {
+		rep.Violation("harness_segments_error", key, err.Error(), c09Case{Ops: st.hist})
+		return true
+	}
+	mem := strings.HasSuffix(st.layout, "mem")
+	shape := vLayoutShape(st.layout) + " " + c09SegShape(segs)
+	level := st.level
+	if len(segs) == 0 {
+		level = 0
+		rep.Count("states_memtable_only", 1)
+	}
+	variants := c09Variants(level)
+	ranges := c09Ranges(level)
+	rep.Count("states_checked", 1)
+	if st.crossGen {
+		rep.Count("states_cross_generation", 1)
+	}
+	nViol := 0
+	for _, r := range ranges {
+		rows, err := c09Rows(v, r)
+		if err != nil {
+			rep.Violation("plain_read_error", key, fmt.Sprintf("range %v: %v", r, err), c09Case{Ops: st.hist})
+			return true
+		}
+		start, end := r.bounds()
+		pattern, nFull, nPartial := c09Coverage(segs, start, end)
+		nontrivial := nFull > 0 && (nPartial > 0 || mem)
+		stmtRows, err := c09StmtRows(v, r, false)
+		if err != nil {
+			rep.Violation("plain_statement_error", key, err.Error(), c09Case{Ops: st.hist})
+			return true
+		}
+		if !c09SameRows(rows, stmtRows) {
+			// the two plain read paths disagree without any filter: the reference itself is in doubt
+			rep.Violation("plain_statement_differs_from_cursor_dump", key, fmt.Sprintf("range %v: cursor %s; statement %s; layout %s", r, c09FmtRows(rows), c09FmtRows(stmtRows), shape), c09Case{Ops: st.hist})
+			return true
+		}
+		var filtered []c09Row
+		if level > 0 {
+			if filtered, err = c09StmtRows(v, r, true); err != nil {
+				rep.Violation("plain_statement_error", key, err.Error(), c09Case{Ops: st.hist})
+				return true
+			}
+			if c09FmtRows(filtered) != c09FmtRows(c09HarnessFilter(rows)) {
+				rep.Count("filter_rows_differ_from_filtered_merge", 1) // not this property: see c09StmtRows
+			}
+		}
+		for _, va := range variants {
+			if va.Bucket > 0 && r.A < 0 {
+				continue // group by time needs explicit bounds
+			}
+			if va.lenient() && st.crossGen {
+				rep.Count("excluded_cross_generation", int64(len(c09AggFields)))
+				continue
+			}
+			use := rows
+			if va.Filter {
+				use = filtered
+			}
+			var stmts [][]c09AggField
+			if va.Multi {
+				for _, f := range []string{"f", "i", "s"} {
+					var calls []c09AggField
+					for _, c := range c09AggFields {
+						if c.Field == f && c.Agg != "mean" {
+							calls = append(calls, c)
+						}
+					}
+					stmts = append(stmts, calls)
+				}
+			} else {
+				for _, c := range c09AggFields {
+					stmts = append(stmts, []c09AggField{c})
+				}
+			}
+			for _, calls := range stmts {
+				q := c09QueryText(va, r, calls)
+				series, err := c09Select(v, q)
+				rep.Count("statements", 1)
+				if err != nil {
+					rep.Violation("query_error", key+" | "+q, err.Error(), c09Case{Ops: st.hist, Query: q})
+					nViol++
+					continue
+				}
+				for ci, c := range calls {
+					rep.Eval(1)
+					exp := c09Expected(use, va, c)
+					got, shapeErrs := c09Observed(series, va, ci+1, c.Agg == "count")
+					diffs := c09Diff(exp, got)
+					diffs = append(diffs, shapeErrs...)
+					if nontrivial {
+						rep.DistinctNontrivial(kit.Hash(shape, pattern, c.Agg, c.Field, va.Name, fmt.Sprint(mem)))
+					}
+					if len(diffs) > 0 {
+						nViol++
+						rep.Violation(c09Kind(va, c), key+" | "+q,
+							fmt.Sprintf("%s(%s): %s; layout %s; segments covered %s mem=%v; rows %s", c.Agg, c.Field,
+								strings.Join(diffs, "; "), shape, pattern, mem, c09FmtRows(use)),
+							c09Case{Ops: st.hist, Query: q})
+					}
+				}
+				if nViol > 40 {
+					return true // enough evidence for this state
+				}
+			}
+		}
+		if nontrivial {
+			rep.Sample(8, map[string]any{"history": key, "layout": shape, "range": r.String(), "coverage": pattern, "mem": mem, "rows": len(rows)})
+		}
+	}
+	return nViol > 0
+}
+
+func c09FmtRows(rows []c09Row) string {
+	var b strings.Builder
+	for _, r := range rows {
+		fmt.Fprintf(&b, "(%s,t%s", r.Host, c09TIdx(r.T))
+		for _, f := range []string{"f", "i", "s"} {
+			if v, ok := r.V[f]; ok {
+				fmt.Fprintf(&b, " %s=%v", f, v)
+			}
+		}
+		b.WriteString(")")
+	}
+	return b.String()
+}
+
+// ---- history runner ----------------------------------------------------------------------------------
+
+// c09RunHistory runs ops on a fresh shard. The oracle is evaluated after step i iff check(i) (second result:
+// with the full query set). Returns the index of the first no-op step (or -1).
+func c09RunHistory(rep *kit.Report, dir string, ops []string, check func(i int) (bool, int)) (noopAt int, failed bool) {
+	noopAt = -1
+	_ = os.RemoveAll(dir)
+	v, err := vOpenShard(dir)
+	if err != nil {
+		rep.Violation("harness_open_error", strings.Join(ops, " "), err.Error(), c09Case{Ops: ops})
+		return -1, true
+	}
+	c09TheStore.v = v // (a reopen replaces v.sh, not v)
+	defer func() {
+		c09TheStore.v = nil
+		if err := v.Close(); err != nil {
+			rep.Violation("close_error", strings.Join(ops, " "), err.Error(), c09Case{Ops: ops})
+		}
+		_ = os.RemoveAll(dir)
+	}()
+	m := vModel{}
+	gen := 0
+	gens := map[vKey]map[int]bool{}
+	crossGen := false
+	prevLayout := v.Layout()
+	for i, op := range ops {
+		before := m.Digest()
+		if err := c09Apply(v, m, op, i+1); err != nil {
+			rep.Violation("op_error", strings.Join(ops[:i+1], " "), fmt.Sprintf("op %s failed: %v", op, err), c09Case{Ops: ops[:i+1]})
+			return -1, true
+		}
+		layout := v.Layout()
+		if m.Digest() == before && layout == prevLayout {
+			return i, false
+		}
+		// flush generations: a key is tagged with the generation of the memtable it was written into; the
+		// generation ends when that memtable reaches the disk (observed, whatever op caused it).
+		for _, p := range c09Batch(op, i+1) {
+			if gens[p.K] == nil {
+				gens[p.K] = map[int]bool{}
+			}
+			gens[p.K][gen] = true
+			if len(gens[p.K]) > 1 {
+				crossGen = true
+			}
+		}
+		hadMem := strings.HasSuffix(prevLayout, "mem") || len(c09Batch(op, i+1)) > 0
+		if hadMem && !strings.HasSuffix(layout, "mem") {
+			gen++
+		}
+		prevLayout = layout
+		rep.Count("steps", 1)
+		if do, level := check(i); do {
+			if c09CheckState(rep, v, c09State{hist: append([]string(nil), ops[:i+1]...), crossGen: crossGen, layout: layout, level: level}) {
+				failed = true
+			}
+		}
+	}
+	return -1, failed
 }
 
 func TestVerifC09(t *testing.T) {
 	rep := kit.NewReport("C09")
 	defer rep.Save()
 	vSetupEngineKnobs()
-	scratch := kit.Scratch()
-	dir := vMkdir(scratch, "sh")
-	v, err := vOpenShard(dir)
-	if err != nil {
-		t.Fatal(err)
-	}
-	defer v.Close()
-	executor.SetLocalStorageForQuery(&c09Store{v: v})
+	_ = logger.SetLevel("error")
+	debug.SetGCPercent(400)
+	executor.EnableFileCursor(true)
+	executor.SetLocalStorageForQuery(c09TheStore)
 	executor.InitLocalStoreTemplatePlan()
-	m := vModel{}
-	for i, op := range []string{"Wc", "We", "F", "Wd", "Wh"} {
-		if err := vApply(v, m, op, i+1); err != nil {
+	scratch := kit.Scratch()
+	thorough := kit.Thorough()
+	if kit.ReplayPath() != "" {
+		var c c09Case
+		if err := kit.LoadReplay(&c); err != nil {
 			t.Fatal(err)
 		}
+		last := len(c.Ops) - 1
+		c09RunHistory(rep, vMkdir(scratch, "replay"), c.Ops, func(i int) (bool, int) { return i == last, 2 })
+		return
 	}
-	t0 := time.Now()
-	for _, q := range []string{
-		"select count(f) from m",
-		"select /*+ exact_statistic_query */ count(f) from m",
-		"select sum(f), min(i), last(s) from m",
-		"select count(f) from m group by host",
-		"select mean(f) from m where f > 0",
-		fmt.Sprintf("select count(f) from m where time >= %d and time <= %d group by time(2s)", vT(1), vT(4)),
-		fmt.Sprintf("select first(i) from m where time >= %d and time <= %d order by time desc", vT(1), vT(4)),
-	} {
-		rows, err := c09Select(v, q)
-		fmt.Printf("%s\n   err=%v\n", q, err)
-		for _, r := range rows {
-			fmt.Printf("   %v\n", r)
+	if dev := kit.Getenv("C09_DEV_OPS", ""); dev != "" { // development aid: print the answers of statements on one layout
+		c09RunHistory(rep, vMkdir(scratch, "dev"), strings.Fields(dev), func(i int) (bool, int) {
+			if i == len(strings.Fields(dev))-1 {
+				for _, q := range strings.Split(kit.Getenv("C09_DEV_Q", ""), ";") {
+					series, err := c09Select(c09TheStore.v, strings.TrimSpace(q))
+					fmt.Printf("DEV %s\n    err=%v\n", q, err)
+					for _, s := range series {
+						fmt.Printf("    host=%q %v %v\n", s.Host, s.Columns, s.Values)
+					}
+				}
+			}
+			return false, 0
+		})
+		return
+	}
+	// quick: the small alphabet to depth 3, reduced query set.
+	// thorough: (A) the big alphabet to depth 3 - full query set on states of length <= 2, reduced set on length 3;
+	//           (B) the small alphabet (a subset of the big one) to depth 4 - only the states of length 4 are new.
+	type pass struct {
+		big       bool
+		depth     int
+		fullDepth int // states of length <= fullDepth get the full query set
+		fromLen   int // states shorter than this were evaluated by an earlier pass
+	}
+	passes := []pass{{false, 3, 0, 1}}
+	if thorough {
+		passes = []pass{{true, 3, 2, 1}, {false, 4, 0, 4}}
+	}
+	if d := kit.Getenv("VERIF_DEPTH", ""); d != "" { // development aid
+		var depth int
+		fmt.Sscanf(d, "%d", &depth)
+		passes = []pass{{kit.Getenv("VERIF_BIG", "") != "", depth, 0, 1}}
+	}
+	rep.Note("agg_fields=%d variants(light/reduced/full)=%d/%d/%d ranges(light/reduced/full)=%d/%d/%d",
+		len(c09AggFields), len(c09Variants(0)), len(c09Variants(1)), len(c09Variants(2)), len(c09Ranges(0)), len(c09Ranges(1)), len(c09Ranges(2)))
+	for pi, p := range passes {
+		ops := c09Ops(p.big)
+		rep.Note("pass %d: alphabet=%v depth=%d full_query_set_up_to_length=%d states_evaluated_from_length=%d", pi, ops, p.depth, p.fullDepth, p.fromLen)
+		c09Explore(rep, scratch, ops, p.depth, p.fullDepth, p.fromLen)
+	}
+}
+
+// c09Explore enumerates every op sequence of length depth in lexicographic order (c02Explore); a state (prefix)
+// is evaluated the first time it is reached; prefixes shorter than the sharding level are evaluated by one owner.
+func c09Explore(rep *kit.Report, scratch string, ops []string, depth, fullDepth, fromLen int) {
+	n := len(ops)
+	seq := make([]int, depth)
+	var prev []int
+	dir := vMkdir(scratch, "sh")
+	names := make([]string, depth)
+	for {
+		sub := 0
+		for i := 0; i < depth && i < 2; i++ {
+			sub = sub*n + seq[i]
+		}
+		bump := depth - 1
+		if kit.Mine(sub) {
+			if rep.Expired() {
+				return
+			}
+			for i, o := range seq {
+				names[i] = ops[o]
+			}
+			common := 0
+			for prev != nil && common < depth && prev[common] == seq[common] {
+				common++
+			}
+			cur := append([]int(nil), seq...)
+			rep.Count("histories", 1)
+			noopAt, failed := c09RunHistory(rep, dir, names, func(i int) (bool, int) {
+				if i+1 < fromLen {
+					return false, 0 // evaluated by an earlier pass
+				}
+				if prev != nil && i < common {
+					return false, 0 // this prefix was evaluated by an earlier sequence of this worker
+				}
+				if i == 0 && depth > 1 && !kit.Mine(cur[0]*n) {
+					return false, 0 // length-1 prefixes are shared by several workers: one owner
+				}
+				if i < fullDepth {
+					return true, 2
+				}
+				return true, 1
+			})
+			prev = cur
+			if failed {
+				rep.Count("failed_histories", 1)
+			}
+			if noopAt >= 0 {
+				rep.Count("noop_pruned", 1)
+				bump = noopAt
+			}
+		}
+		i := bump
+		for ; i >= 0; i-- {
+			seq[i]++
+			if seq[i] < n {
+				break
+			}
+			seq[i] = 0
+		}
+		if i < 0 {
+			return
+		}
+		for j := i + 1; j < depth; j++ {
+			seq[j] = 0
 		}
 	}
-	fmt.Println("elapsed", time.Since(t0))
 }
